@@ -50,10 +50,59 @@ func (c *Ctx) ecmaAnalysis() (*pta.Analysis, *ssa.Function) {
 		Entries:    []*ssa.Function{exec},
 		Roots:      map[*ssa.Function]map[int]pta.RootSpec{exec: roots},
 		External:   stdExternal,
+		// the JSON round trip: one abstract result per call site, so that the copy handed to the script and the
+		// copy put on the emitted list are different objects (canonFresh checks that it is a round trip)
+		Fresh: c.canonFresh(),
 	})
 	a.Run()
 	c.noteAnalysis(a)
 	return a, exec
+}
+
+// canonFresh: core.Canonicalize qualifies as a per-call-site fresh-result
+// function if its non-nil result is only ever the variable that json.Unmarshal
+// filled from bytes produced by json.Marshal in the same call.
+func (c *Ctx) canonFresh() map[*ssa.Function]bool {
+	canon := c.P.Func("core", "", "Canonicalize")
+	if canon == nil {
+		return nil
+	}
+	var target ssa.Value
+	marshal := false
+	ssau.Instrs(canon, func(in ssa.Instruction) {
+		if cl, ok := in.(*ssa.Call); ok {
+			switch ssau.CalleeName(cl) {
+			case "encoding/json.Unmarshal":
+				t := cl.Common().Args[1]
+				if mi, isMI := t.(*ssa.MakeInterface); isMI {
+					t = mi.X
+				}
+				target = t
+			case "encoding/json.Marshal":
+				marshal = true
+			}
+		}
+	})
+	al, isAl := target.(*ssa.Alloc)
+	if !isAl || !marshal {
+		return nil
+	}
+	for _, b := range canon.Blocks {
+		ret, ok := b.Instrs[len(b.Instrs)-1].(*ssa.Return)
+		if !ok {
+			continue
+		}
+		for _, d := range phiDefs(ret.Results[0], nil, map[ssa.Value]bool{}) {
+			if ssau.IsNilConst(d) {
+				continue
+			}
+			ld, isLd := d.(*ssa.UnOp)
+			if !isLd || ld.X != ssa.Value(al) {
+				return nil
+			}
+		}
+	}
+	return map[*ssa.Function]bool{canon: true}
 }
 
 func a2has(m map[int]pta.RootSpec, name string) (int, bool) {
